@@ -160,7 +160,13 @@ type Scenario struct {
 	Real []string // components running shipped code
 	Stub []string // components replaced by the simulator
 	Rule string   // how cases are generated and what makes one non-trivial/distinct
-	Run  func(*Ctx) *Result
+	// RealTime scenarios are executed by the driver binary itself (ordinary Go
+	// runtime) and not by the faketime simulation binary: single-goroutine
+	// component simulators whose code under test starts free-running background
+	// goroutines with tickers (Pebble), which under faketime fire whenever the
+	// main goroutine waits.
+	RealTime bool
+	Run      func(*Ctx) *Result
 }
 
 // Part is one scenario + parameters inside a check.
